@@ -2218,6 +2218,15 @@ impl CharacterDataMut for XmlText {
             Ok(())
         }
     }
+
+    fn replace_data(&self, offset: usize, count: usize, arg: &str) -> error::Result<()> {
+        if self.length() < offset {
+            Err(error::DomException::IndexSizeErr)?
+        } else {
+            self.data.borrow_mut().replace(offset, count, arg)?;
+            Ok(())
+        }
+    }
 }
 
 impl Node for XmlText {
@@ -2370,6 +2379,15 @@ impl CharacterDataMut for XmlComment {
             Err(error::DomException::IndexSizeErr)?
         } else {
             self.data.borrow_mut().delete(offset, count);
+            Ok(())
+        }
+    }
+
+    fn replace_data(&self, offset: usize, count: usize, arg: &str) -> error::Result<()> {
+        if self.length() < offset {
+            Err(error::DomException::IndexSizeErr)?
+        } else {
+            self.data.borrow_mut().replace(offset, count, arg)?;
             Ok(())
         }
     }
@@ -2554,6 +2572,15 @@ impl CharacterDataMut for XmlCDataSection {
             Err(error::DomException::IndexSizeErr)?
         } else {
             self.data.borrow_mut().delete(offset, count);
+            Ok(())
+        }
+    }
+
+    fn replace_data(&self, offset: usize, count: usize, arg: &str) -> error::Result<()> {
+        if self.length() < offset {
+            Err(error::DomException::IndexSizeErr)?
+        } else {
+            self.data.borrow_mut().replace(offset, count, arg)?;
             Ok(())
         }
     }
